@@ -138,7 +138,7 @@ def run_check(P, pid, tier, seed, t0, a):
     # which inputs the traced paths of the branching functions cover (Cgm/Trace/Cover.lean: exclusive, and exhaustive or
     # with the exact covered set) -- model-only statements, audited with the properties that have branching kernels
     if pid in COVER_PIDS:
-        rc, out = core.lake_build(["Cgm.Trace.Cover", "Cgm.Trace.Cover2"])
+        rc, out = core.lake_build(["Cgm.Trace.Cover", "Cgm.Trace.Cover2", "Cgm.Trace.Cover3", "Cgm.Trace.Cover4"])
         if rc != 0:
             raise MachineryError(f"lake build Cgm.Trace.Cover failed:\n{out[-3000:]}")
         rc, out = core.run(["lake", "env", "lean", "Cgm/Audit/Cover.lean"], cwd=core.LEAN, timeout=900)
@@ -151,7 +151,7 @@ def run_check(P, pid, tier, seed, t0, a):
                 axs = {a.strip() for a in line.split(" AXIOMS ")[1].strip().strip("[]").split(",") if a.strip()}
                 if not axs <= core.STD_AXIOMS:
                     raise MachineryError(f"{line.split(' ')[1]} uses non-standard axioms {axs}")
-        notes.append(f"path-coverage theorems (Cgm/Trace/Cover.lean, Cover2.lean) checked: {ncov}")
+        notes.append(f"path-coverage theorems (Cgm/Trace/Cover.lean, Cover2.lean, Cover3.lean, Cover4.lean) checked: {ncov}")
     t_lean = time.time() - t1
     log(f"[{pid}] P: {len(thms)} theorems, axioms ok ({t_lean:.1f}s)")
     if tier == "thorough":
